@@ -14,7 +14,7 @@ META = {
     "level": "proof",
     "technique": "contract-based deductive verification (pyvc, SMT) of write_vhdl_file / create_backup_file against a ghost file system, with the two-state invariant asserted after every statement and on every exceptional edge (crash points, failing OS calls); fault enumeration on the real function validates the model",
     "text": "Proved over the ghost file system, for every combination of failing OS calls (PermissionError, FileNotFoundError, other OSError at stat/open/write/chmod/replace, partial writes) and a process stop after any statement: the target always holds its complete original or the complete fixed text with its original permission bits; only PermissionError is swallowed; the temporary file is gone on every returning or raising path; without any OS error the file holds the fixed text. create_backup_file leaves a faithful copy. The contracts of os.stat/open/write/chmod/replace/remove and shutil.copy2 are assumed (POSIX); the fault-enumeration run replays every modelled path on the real function and real files.",
-    "note": "Assumed: POSIX semantics of the external calls (rename atomic; chmod/stat/open as modelled; removing our own temporary file does not fail), a pre-existing user file named <name>.tmp is out of scope, text-mode newline translation is not modelled. 'A file that fails to parse or configure is never modified' is checked through the real apply_rules as a bounded stand-in here (its control flow is not under contract yet). Trusted: pyvc, SMT solvers.",
+    "note": "Assumed: POSIX semantics of the external calls (rename atomic; chmod/stat/open as modelled; removing our own temporary file does not fail), a pre-existing user file named <name>.tmp is out of scope, text-mode newline translation is not modelled. 'A file that fails to parse or configure is never modified' is a postcondition of apply_rules (proved: no file-system effect and no fix on the ClassifyError / ConfigurationError / local-rules paths, no file-system effect at all without --fix, and with --fix nothing but the optional backup unless some _fix_violation ran), with the constructors, configure_rules and the report builders as assumed stubs that do not touch the ghost file system; the real CLI is also run on such files as a bounded cross-check. Trusted: pyvc, SMT solvers.",
 }
 
 QUALS = ["vsg.apply_rules.write_vhdl_file", "vsg.apply_rules.create_backup_file", "vsg.apply_rules.apply_rules", "vsg.rule_list.rule_list.fix", "vsg.rule.Rule.fix"]
